@@ -426,6 +426,14 @@ def check_deferral(prog, r):
                 r.fail(ins.name, "deferring-nochange-before-store", "while deferring, insert can return NoChange before storing the entry: the route is lost, not deferred", ins.loc(bi))
     if n == 0:
         r.unanalysable("Table::insert: no NoChange return guarded by `deferring` found", ins.loc())
+    # ... and nothing else leaves insert while deferring: every InsertResult::Changed needs `deferring` to be false
+    for bi, si, s in ins.aggregates(re.compile(r"rustybgp_table::InsertResult"), "Changed"):
+        gs = flat_guards(ins, bi)
+        if any(_mentions_deferring(g) and labels == {"false"} for g, labels, how in gs):
+            r.ok("insert: Changed is returned only when the family is not deferring")
+        else:
+            r.fail(ins.name, "changed-while-deferring", "Table::insert can return InsertResult::Changed while the family is deferring: the route is distributed before End-of-RIB / the deferral "
+                   "timer and again by end_deferral()", ins.loc(bi))
     # writers of Rib.deferring
     writers = {}
     for k in crate_fns(prog, "rustybgp_table"):
